@@ -14,6 +14,7 @@
 package store
 
 import (
+	"bytes"
 	"container/list"
 	"errors"
 	"fmt"
@@ -267,6 +268,11 @@ func (s *CAStore) addToMemoryCache(
 	}
 
 	data := tmpWriter.Bytes()
+	// Entries are served from memory before the drain re-verifies them on
+	// disk, so the digest must be checked before the entry becomes visible.
+	if err := s.verify(bytes.NewReader(data), name); err != nil {
+		return fmt.Errorf("verify digest: %s", err)
+	}
 	metaInfo, err := s.generateMetadataFromBytes(name, data, pieceLength)
 	if err != nil {
 		return fmt.Errorf("generating metainfo: %w", err)
